@@ -46,7 +46,14 @@ def r7_fresh_pieces(run, tree):
     lfold.check_load(run, tree)
 
 
-RULES = [r1, r3, r5, r6, r7_fresh_pieces]
+def r8_level_cap(run, tree):
+    run.rule("C04.R8", "a level predicate with a lower bound (level >= k, level == k) still descends to the highest accepted level: find_max_amr_level returns the largest accepted level, "
+             "not the number of accepted levels (shared with C12.R3)", "D7 fold of io/utils.py::find_max_amr_level on a list model", "", floor=6)
+    from . import io_folds as iof
+    iof.check_find_max_level(run, tree)
+
+
+RULES = [r1, r3, r5, r6, r7_fresh_pieces, r8_level_cap]
 
 
 def t_load_space(run, tree):
